@@ -241,7 +241,7 @@ func documentOracles(c *Case, r Real) []failure {
 		fs = append(fs, failure{"status-from-errors", fmt.Sprintf("no errors in the document but status %d is not 2xx", r.Status)})
 	}
 	comps := c.Req.components()
-	if d.hasErrs || r.Status < 200 || r.Status > 299 {
+	if d.hasErrs || r.Status < 200 || r.Status > 299 || c.Req.Inject != nil {
 		return fs
 	}
 	// link form inside every returned resource object
